@@ -3,4 +3,7 @@ CONSTANTS N = 3
           Names = {"", "a"}
           Devs = {}
           InitDags <- AllDags
+          MaxMiss = 3
+          ModeSet = {1, 2, 3, 4, 5, 6, 7}
+          FaultSet = {"none", "cancelled", "cancelFetch"}
 INVARIANTS TypeOK RecursiveSupersedesDirect RepinReplacesName IndirectDef QueriesAgree FailedCallNoChange
